@@ -113,6 +113,9 @@ func recordLease(s LeaseScenario, info LeaseInfo) {
 	if info.Retried > 0 {
 		cl = append(cl, "confirmed_only_after_retry")
 	}
+	if info.Overloaded {
+		cl = append(cl, "verdict_dropped_machine_overloaded")
+	}
 	if s.Kind == "hold" {
 		cl = append(cl, fmt.Sprintf("hold_injected_failures:%d", info.InjectedFailures), fmt.Sprintf("hold_renewal_latency_pct:%d", s.DelayPct))
 	}
@@ -157,6 +160,9 @@ func runBatch(rt vstat.TB, test string, batch []LeaseScenario) {
 	for i := range batch {
 		st.Report(rt, test, batch[i], viols[i])
 		recordLease(batch[i], infos[i])
+		if infos[i].Overloaded {
+			st.Inconclusivef("a time-bound lease verdict was dropped after three runs with growing leases: goroutines of this process woke up more than a sixteenth of the longest lease late when measured right afterwards (machine overloaded)")
+		}
 	}
 }
 
